@@ -47,7 +47,7 @@ def cases(ctx):
     if ctx.shard == 0:
         for name, ch in c07.corpus_charts():
             yield {"kind": "corpus", "name": name}
-    n = ctx.split(1500 if quick else 16 * 100000)
+    n = ctx.split(1500 if quick else 16 * 40000)
     for i in range(n):
         if i % 5 == 4:
             yield gen_inside(rng)
